@@ -380,7 +380,9 @@ where
             .get(index as usize)
             .ok_or(VhostUserError::InvalidParam)?;
 
-        if num == 0 || num as usize > self.max_queue_size {
+        // The queue only takes a power of two as its size and silently keeps the old value
+        // otherwise, so such a request must not be reported as successful.
+        if num == 0 || num as usize > self.max_queue_size || !num.is_power_of_two() {
             return Err(VhostUserError::InvalidParam);
         }
         vring.set_queue_size(num as u16);
